@@ -21,8 +21,9 @@ CONSTANTS Projs,        \* subset of {"TAN", "TPV", "TANPV", "SIP"}
           Repaired,     \* TRUE: the three SIP / find-dispatch defects of the pinned tree repaired
           PVMapVariant, \* "pinned" | "pv2_as_pv1"  (self-test: a wrong scamp map must violate MechRefines)
           SkyCDIds, SkyLons, SkyLats,   \* anchors: CD ids (signed permutations), CRVAL lattice
-          RefLonIds, RefLatIds,         \* reference-pixel check: ids of RefLon / RefLat
-          HistCalls, MaxHist, HistVariant,   \* "pinned" | "warm_start" | "stale_inverse"
+          RefCDIds, RefLonIds, RefLatIds,   \* reference-pixel check: CD ids, ids of RefLon / RefLat
+          HistCalls, MaxHist, ShortKinds,    \* sequences of length MaxHist (MaxHist - 1 for the header kinds in ShortKinds)
+          HistVariant,                       \* "pinned" | "warm_start" | "stale_inverse"
           DoExport
 
 VARIABLES phase, c, hk, obj, calls, results
@@ -107,7 +108,11 @@ RefLon(k) == CASE k = 1 -> <<0, 0>> [] k = 2 -> <<0, 1>> [] k = 3 -> <<0, -1>> [
 RefLat(k) == CASE k = 1 -> <<0, 0>> [] k = 2 -> <<90, 0>> [] k = 3 -> <<-90, 0>> [] k = 4 -> <<90, -1>>
                [] k = 5 -> <<-90, 1>> [] k = 6 -> <<45, 0>> [] k = 7 -> <<-60, 1>> [] k = 8 -> <<0, -1>>
 ChooseRef ==
-    /\ phase = "header" /\ Len(c.h.co) <= 1 /\ RefPixAtOrigin(c.h)
+    /\ phase = "header" /\ RefPixAtOrigin(c.h)
+    /\ c.h.cd \in {CDMat(k) : k \in RefCDIds}
+    /\ \/ Len(c.h.co) = 0                    \* identity set, or one quadratic coefficient (PV1_4 / A_2_0)
+       \/ /\ Len(c.h.co) = 1 /\ c.h.co[1].deg = 2 /\ c.h.co[1].val[1] > 0 /\ c.h.co[1].ax = 1
+          /\ c.h.co[1].j \in {0, 4} /\ c.h.co[1].q = 0
     /\ \E lo \in RefLonIds : \E la \in RefLatIds :
           c' = [kind |-> "refpix", h |-> c.h, crval |-> <<RefLon(lo), RefLat(la)>>,
                 exp |-> <<NormLon(RefLon(lo)), RefLat(la)>>, lonfree |-> IsPoleLat(RefLat(la))]
@@ -140,8 +145,9 @@ MechName(h) ==
 MechDistort(h, x, y) ==
     IF MechName(h) = "scamp" THEN <<MechPVPoly(h, 1, x, y), MechPVPoly(h, 2, x, y)>>     \* xp = 0*x + poly
     ELSE <<RAdd(x, SIPPoly(h, 1, x, y)), RAdd(y, SIPPoly(h, 2, x, y))>>                    \* xp = x*1.0 + poly
-\* __init__ -> ExtractSIPCoeffs(prefix "ap"): _dict_get(wcs, "ap_order") raises without the key
-MechConstructs(h) == h.proj # "SIP" \/ h.invkeys \/ Repaired
+\* __init__ -> ExtractSIPCoeffs(prefix "ap"): _dict_get(wcs, "ap_order") raises without the key; only reached
+\* when an A coefficient was found
+MechConstructs(h) == h.proj # "SIP" \/ h.invkeys \/ Repaired \/ ~(\E k \in DOMAIN h.co : h.co[k].ax = 1)
 MechI2S(h, pix, distort) ==
     IF ~MechConstructs(h) THEN Err("ValueError")
     ELSE LET d == Offset(h, pix) IN
@@ -215,8 +221,9 @@ MechCall(k, st, call) ==
 
 InitH == phase = "hist" /\ c = NoCase /\ hk = "none" /\ obj = NoObj /\ calls = <<>> /\ results = <<>>
 ChooseKind == hk = "none" /\ \E k \in {"TAN", "TPV", "SIP"} : hk' = k /\ UNCHANGED <<phase, c, obj, calls, results>>
+HistLen(k) == IF k \in ShortKinds THEN MaxHist - 1 ELSE MaxHist
 Call(cl) ==
-    /\ hk # "none" /\ Len(calls) < MaxHist
+    /\ hk # "none" /\ Len(calls) < HistLen(hk)
     /\ LET r == MechCall(hk, obj, cl) IN
           /\ obj' = r.st
           /\ results' = Append(results, r.res)
@@ -230,5 +237,5 @@ HistoryIndependent == \A k \in DOMAIN results : results[k] = MechCall(hk, NoObj,
 \* ---- export ----------------------------------------------------------------------------------
 Export == DoExport =>
     /\ (phase = "case" => PrintT(<<"CASE", ToJson(c)>>))
-    /\ (phase = "hist" /\ Len(calls) = MaxHist => PrintT(<<"HIST", ToJson([hk |-> hk, calls |-> calls])>>))
+    /\ (phase = "hist" /\ hk # "none" /\ Len(calls) = HistLen(hk) => PrintT(<<"HIST", ToJson([hk |-> hk, calls |-> calls])>>))
 =============================================================================
